@@ -512,6 +512,8 @@ def trace_accepts(ctx, module, cfg, lines, tag, timeout=300):
 def binding_selftest(ctx, module, cfg, trace_path, corruptions):
     """DESIGN 3.6: corrupt one field of one recorded event; the corrupted trace must be rejected.
     corruptions: list of (tag, fn(list of event dicts) -> list of event dicts or None)."""
+    if ctx.violations:
+        return  # the recorded executions already disagree with the specification; the self-test of the machinery is moot
     lines = [l for l in open(trace_path).read().splitlines() if l.strip()]
     # first few traces
     traces = []
